@@ -291,9 +291,12 @@ def graph_class(adj, comp):
     return "cyclic" if has_cycle_in_component(adj, comp) else "acyclic"
 
 
-def check_graph(ctx, agg, cls_name, n, bond_list, btypes, forms):
-    """all queries of part G on one molli object; returns the observation digest"""
-    obj = build(cls_name, n, bond_list, None, btypes)
+def check_graph(ctx, agg, cls_name, n, bond_list, btypes, forms, obj=None, sfx="", hist=None):
+    """all queries of part G on one molli object; returns the observation digest.
+    obj/sfx/hist: history dimension - the queries run on an EXISTING object after an in-place edit; n and bond_list
+    are then the object's current state and every operation name carries the suffix `:history[<edit>]`"""
+    if obj is None:
+        obj = build(cls_name, n, bond_list, None, btypes)
     atoms = list(obj.atoms)
     bonds = list(obj.bonds)
     pos = {id(a): i for i, a in enumerate(atoms)}
@@ -303,9 +306,15 @@ def check_graph(ctx, agg, cls_name, n, bond_list, btypes, forms):
     obs = []
 
     def viol(op, attrs, symptom, what, query):
-        case = {"kind": "graph", "op": op, "symptom": symptom, "cls": cls_name, "n": n, "bond_list": [list(x) for x in bond_list], "btypes": btypes, "forms": list(forms), "query": query}
-        rep = repro_build(cls_name, n, bond_list, None, btypes) + [f"print({query})"]
-        agg.fail(op, symptom, attrs, f"{what} [{cls_name}, {n} atoms, bonds {bond_list}]", case, "\n".join(rep))
+        op = op + sfx
+        if hist is None:
+            case = {"kind": "graph", "op": op, "symptom": symptom, "cls": cls_name, "n": n, "bond_list": [list(x) for x in bond_list], "btypes": btypes, "forms": list(forms), "query": query}
+            rep = repro_build(cls_name, n, bond_list, None, btypes) + [f"print({query})"]
+            agg.fail(op, symptom, attrs, f"{what} [{cls_name}, {n} atoms, bonds {bond_list}]", case, "\n".join(rep))
+        else:
+            case = dict(hist["case"], op=op, symptom=symptom, query=query)
+            rep = hist["repro"] + [f"print({query})"]
+            agg.fail(op, symptom, attrs, f"{what} [{cls_name}, after {hist['what']}; now {n} atoms, bonds {bond_list}]", case, "\n".join(rep))
 
     def arg(i, form):
         return atoms[i] if form == "atom" else (i if form == "index" else f"a{i}")
@@ -321,12 +330,12 @@ def check_graph(ctx, agg, cls_name, n, bond_list, btypes, forms):
             gcls = {"class": cls_name, "component": graph_class(adj, comp), "start": form}
             acls = {"class": cls_name, "atom": form}
             for _op in ("yield_bfsd", "yield_bfs"):
-                agg.tick(_op, gcls)
+                agg.tick(_op + sfx, gcls)
             if adj[s]:
                 for _op in ("yield_bfsd(direction)", "yield_bfs(direction)"):
-                    agg.tick(_op, gcls)
+                    agg.tick(_op + sfx, gcls)
             for _op in ("connected_atoms", "bonds_with_atom", "bonded_valence", "n_bonds_with_atom"):
-                agg.tick(_op, acls)
+                agg.tick(_op + sfx, acls)
             # ---- yield_bfsd(start) ------------------------------------------------------------
             q = f"[(g.atoms.index(a), d) for a, d in g.yield_bfsd({arg(s, form)!r})]" if form != "atom" else f"[(g.atoms.index(a), d) for a, d in g.yield_bfsd(g.atoms[{s}])]"
             ncalls += 1
@@ -414,7 +423,7 @@ def check_graph(ctx, agg, cls_name, n, bond_list, btypes, forms):
     for k, b in enumerate(bonds):
         i, j = bond_list[k]
         bridge = is_bridge(n, edges, (i, j))
-        agg.tick("is_bond_in_ring", rcls)
+        agg.tick("is_bond_in_ring" + sfx, rcls)
         q = f"g.is_bond_in_ring(g.bonds[{k}])"
         ncalls += 1
         try:
@@ -504,6 +513,35 @@ def _graph_args(g, bt):
     return n, ed, cols, [bt] * len(ed)
 
 
+def _compare_match(ctx, viol, tgt, pat, api, opname, tn, tadj, tcols, pn, padj, pcols, expected):
+    """run one entry point on (tgt, pat) and compare the set of embeddings with `expected`"""
+    patoms = list(pat.atoms)
+    tpos = {id(a): i for i, a in enumerate(tgt.atoms)}
+    ctx.count(transitions=1, evaluations=1, traces=1)
+    got = []
+    try:
+        if api == "match":
+            for m in tgt.match(pat):
+                if not isinstance(m, dict) or len(m) != pn or any(not any(k is a for k in m) for a in patoms):
+                    got.append("malformed")
+                    continue
+                got.append(tuple(tpos.get(id(m[a]), -1) for a in patoms))
+        else:
+            for l in tgt.get_substr_indices(pat):
+                got.append(tuple(int(x) if isinstance(x, int) else -1 for x in l) if isinstance(l, (list, tuple)) else "malformed")
+    except Exception as e:
+        viol(f"raised-{type(e).__name__}", f"{opname} raised {type(e).__name__}: {e}")
+        return
+    gset = set(got)
+    for f in sorted(gset - expected, key=repr):
+        why = "malformed-mapping" if f == "malformed" else classify_invalid(f, tn, tadj, tcols, pn, padj, pcols)
+        viol(f"invalid-embedding:{why}", f"{opname} yielded {f}, which is not an induced embedding ({why}); expected {len(expected)} embeddings")
+    missed = expected - gset
+    if missed:
+        viol("missed-embedding", f"{opname} missed {len(missed)} of {len(expected)} induced embeddings, e.g. {sorted(missed)[0]} (pattern atom i -> target atom)")
+    ctx.outcome(("m", tn, pn, len(gset)))
+
+
 def check_match(ctx, agg, tg, pg, bt, apis):
     """one (target, pattern) pair through the named entry points"""
     tn, ted, tcols, tbts = _graph_args(tg, bt)
@@ -534,29 +572,7 @@ def check_match(ctx, agg, tg, pg, bt, apis):
                 rep.append("print(list(t.get_substr_indices(p)))")
             agg.fail(opname, symptom, mattrs, f"{what} [target {tn} atoms {''.join(tcols)} bonds {ted}; pattern {''.join(pcols)} bonds {ped}; all bonds {bt}]", case, "\n".join(rep))
 
-        ctx.count(transitions=1, evaluations=1, traces=1)
-        got = []
-        try:
-            if api == "match":
-                for m in tgt.match(pat):
-                    if not isinstance(m, dict) or len(m) != pn or any(not any(k is a for k in m) for a in patoms):
-                        got.append("malformed")
-                        continue
-                    got.append(tuple(tpos.get(id(m[a]), -1) for a in patoms))
-            else:
-                for l in tgt.get_substr_indices(pat):
-                    got.append(tuple(int(x) if isinstance(x, int) else -1 for x in l) if isinstance(l, (list, tuple)) else "malformed")
-        except Exception as e:
-            viol(f"raised-{type(e).__name__}", f"{opname} raised {type(e).__name__}: {e}")
-            continue
-        gset = set(got)
-        for f in sorted(gset - expected, key=repr):
-            why = "malformed-mapping" if f == "malformed" else classify_invalid(f, tn, tadj, tcols, pn, padj, pcols)
-            viol(f"invalid-embedding:{why}", f"{opname} yielded {f}, which is not an induced embedding ({why}); expected {len(expected)} embeddings")
-        missed = expected - gset
-        if missed:
-            viol("missed-embedding", f"{opname} missed {len(missed)} of {len(expected)} induced embeddings, e.g. {sorted(missed)[0]} (pattern atom i -> target atom)")
-        ctx.outcome(("m", tn, pn, len(gset)))
+        _compare_match(ctx, viol, tgt, pat, api, opname, tn, tadj, tcols, pn, padj, pcols, expected)
     ninj = 1
     for k in range(pn):
         ninj *= max(tn - k, 0)
@@ -576,6 +592,174 @@ def run_match_part(ctx, agg, part):
             ctx.nontrivial(("m", tg[0], tg[1], "".join(tg[2])))
 
 
+# =================================================================================================
+# part H : history dimension - the same object queried again after an in-place edit
+# =================================================================================================
+_COL = {Element.C: "C", Element.N: "N", Element.Unknown: "X"}
+OPNAME = {"match": "match", "get_substr_indices": "get_substr_indices", "ens.get_substr_indices": "ConformerEnsemble.get_substr_indices"}
+
+
+def graph_of(obj):
+    """(n, bond list by position, element letters) read back from the object by atom identity"""
+    atoms = list(obj.atoms)
+    pos = {id(a): i for i, a in enumerate(atoms)}
+    bl = []
+    for b in obj.bonds:
+        if id(b.a1) not in pos or id(b.a2) not in pos:
+            return None
+        bl.append((pos[id(b.a1)], pos[id(b.a2)]))
+    if len({frozenset(x) for x in bl}) != len(bl) or any(i == j for i, j in bl):
+        return None  # not a simple graph any more: outside the property
+    return len(atoms), bl, tuple(_COL.get(a.element, "?") for a in atoms)
+
+
+def apply_graph_edit(obj, edit):
+    """edit: ("bond-added", i, j) | ("bond-deleted", i, j) | ("atom-deleted", k) -> repro line"""
+    atoms = list(obj.atoms)
+    if edit[0] == "bond-added":
+        obj.append_bond(Bond(atoms[edit[1]], atoms[edit[2]], btype=BondType.Double))
+        return f"g.append_bond(Bond(g.atoms[{edit[1]}], g.atoms[{edit[2]}], btype=BondType.Double))"
+    if edit[0] == "bond-deleted":
+        b = next(b for b in obj.bonds if {id(b.a1), id(b.a2)} == {id(atoms[edit[1]]), id(atoms[edit[2]])})
+        obj.del_bond(b)
+        return f"g.del_bond(g.lookup_bond(g.atoms[{edit[1]}], g.atoms[{edit[2]}]))"
+    if edit[0] == "atom-deleted":
+        obj.del_atom(atoms[edit[1]])
+        return f"g.del_atom(g.atoms[{edit[1]}])"
+    raise HarnessError(str(edit))
+
+
+def graph_history_case(ctx, agg, cls_name, n, mask, edit, seed):
+    """all queries (fills whatever the object remembers) -> in-place edit -> all queries again, compared with the
+    graph the object holds NOW"""
+    ed = edges_of(n, mask)
+    bts = [BT_CYCLE[(k + seed) % 4] for k in range(len(ed))]
+    obj = build(cls_name, n, ed, None, bts)
+    check_graph(ctx, Agg(), cls_name, n, ed, bts, ("atom",), obj=obj)  # first round: reported by part G, not here
+    try:
+        line = apply_graph_edit(obj, edit)
+    except Exception as e:
+        ctx.add_note(f"history_edit_raised[{cls_name}:{edit[0]}:{type(e).__name__}]", 1)
+        return
+    ctx.count(transitions=1, states=1)
+    cur = graph_of(obj)
+    if cur is None:
+        ctx.add_note("history_object_not_a_simple_graph_after_edit", 1)
+        return
+    n2, bl2, _ = cur
+    hist = {
+        "case": {"kind": "graph-history", "cls": cls_name, "n": n, "mask": mask, "edit": list(edit), "seed": seed},
+        "repro": repro_build(cls_name, n, ed, None, bts) + ["list(g.yield_bfsd(g.atoms[0])); [g.is_bond_in_ring(b) for b in g.bonds]; [list(g.connected_atoms(a)) for a in g.atoms]  # first round of queries", line],
+        "what": f"all queries on bonds {ed}, then {line}",
+    }
+    check_graph(ctx, agg, cls_name, n2, bl2, None, ("atom", "index"), obj=obj, sfx=f":history[{edit[0]}]", hist=hist)
+    ctx.count(evaluations=1, traces=1)
+    ctx.nontrivial(("gh", cls_name, n, mask, edit[0]))
+
+
+def graph_edits(n, mask):
+    out = []
+    for k, (i, j) in enumerate(pairs(n)):
+        out.append(("bond-deleted", i, j) if mask >> k & 1 else ("bond-added", i, j))
+    if n >= 2:
+        out += [("atom-deleted", k) for k in range(n)]
+    return out
+
+
+def run_graph_history_part(ctx, agg, part):
+    n, lo, hi = part["n"], part["lo"], part["hi"]
+    for mask in range(lo, hi):
+        for edit in graph_edits(n, mask):
+            for cls_name in ("Connectivity", "Molecule", "ConformerEnsemble"):
+                graph_history_case(ctx, agg, cls_name, n, mask, edit, ctx.seed)
+
+
+MATCH_EDITS = ("target-bond-toggled", "target-element-changed-in-place", "pattern-element-changed-in-place", "target-atom-deleted")
+
+
+def apply_match_edit(tgt, pat, edit, k, bt):
+    tatoms, patoms = list(tgt.atoms), list(pat.atoms)
+    if edit == "target-bond-toggled":
+        if len(tatoms) < 2:
+            return None
+        i, j = pairs(len(tatoms))[k % len(pairs(len(tatoms)))]
+        ex = [b for b in tgt.bonds if {id(b.a1), id(b.a2)} == {id(tatoms[i]), id(tatoms[j])}]
+        if ex:
+            tgt.del_bond(ex[0])
+            return f"t.del_bond(t.lookup_bond(t.atoms[{i}], t.atoms[{j}]))"
+        tgt.append_bond(Bond(tatoms[i], tatoms[j], btype=BT[bt]))  # the one bond type of this pair, as everywhere in part M
+        return f"t.append_bond(Bond(t.atoms[{i}], t.atoms[{j}], btype=BondType.{bt}))"
+    if edit == "target-element-changed-in-place":
+        a = tatoms[k % len(tatoms)]
+        a.element = Element.N if a.element == Element.C else Element.C
+        return f"t.atoms[{k % len(tatoms)}].element = Element.{a.element.name}"
+    if edit == "pattern-element-changed-in-place":
+        a = patoms[k % len(patoms)]
+        a.element = {Element.C: Element.N, Element.N: Element.Unknown, Element.Unknown: Element.C}[a.element]
+        return f"p.atoms[{k % len(patoms)}].element = Element.{a.element.name}"
+    if edit == "target-atom-deleted":
+        if len(tatoms) < 2:
+            return None
+        tgt.del_atom(tatoms[k % len(tatoms)])
+        return f"t.del_atom(t.atoms[{k % len(tatoms)}])"
+    raise HarnessError(edit)
+
+
+def match_history_case(ctx, agg, tg, pg, bt, edit, k, apis):
+    """match (all entry points) -> in-place edit of the target or the pattern -> match again on the same objects"""
+    tn, ted, tcols, tbts = _graph_args(tg, bt)
+    pn, ped, pcols, pbts = _graph_args(pg, bt)
+    for cls_name, capis in (("Connectivity", [a for a in apis if a != "ens.get_substr_indices"]), ("ConformerEnsemble", [a for a in apis if a == "ens.get_substr_indices"])):
+        if not capis or (cls_name == "ConformerEnsemble" and edit == "target-atom-deleted"):
+            continue
+        tgt = build(cls_name, tn, ted, tcols, tbts)
+        pat = build("Connectivity", pn, ped, pcols, pbts)
+        try:
+            list(tgt.match(pat))
+            list(tgt.get_substr_indices(pat))
+        except Exception:
+            return  # first-call failures are part M's
+        try:
+            line = apply_match_edit(tgt, pat, edit, k, bt)
+        except Exception as e:
+            ctx.add_note(f"history_edit_raised[{cls_name}:{edit}:{type(e).__name__}]", 1)
+            continue
+        if line is None:
+            continue
+        ctx.count(transitions=3, states=1)
+        tcur, pcur = graph_of(tgt), graph_of(pat)
+        if tcur is None or pcur is None or "?" in tcur[2] or "?" in pcur[2]:
+            ctx.add_note("history_object_not_a_simple_graph_after_edit", 1)
+            continue
+        tn2, tbl2, tcols2 = tcur
+        pn2, pbl2, pcols2 = pcur
+        tadj, padj = adjacency(tn2, tbl2), adjacency(pn2, pbl2)
+        expected = embeddings(tn2, tadj, tcols2, pn2, padj, pcols2)
+        mattrs = {"bonds": bt, "pattern": "with-Unknown" if "X" in pcols2 else "plain"}
+        for api in capis:
+            opname = f"{OPNAME[api]}:history[{edit}]"
+            agg.tick(opname, mattrs)
+
+            def viol(symptom, what, api=api, opname=opname):
+                stale = embeddings(tn, adjacency(tn, ted), tcols, pn, adjacency(pn, ped), pcols) if tn2 == tn else None
+                case = {"kind": "match-history", "op": opname, "symptom": symptom, "target": [tn, tg[1], list(tcols)], "pattern": [pn, pg[1], list(pcols)], "bt": bt, "api": api, "edit": edit, "k": k}
+                rep = repro_build(cls_name, tn, ted, tcols, tbts) + ["t = g"] + repro_build("Connectivity", pn, ped, pcols, pbts)[1:] + ["p = g"]
+                rep += ["list(t.match(p)); list(t.get_substr_indices(p))  # first round", line]
+                rep.append("print([[t.atoms.index(m[a]) for a in p.atoms] for m in t.match(p)])" if api == "match" else "print(list(t.get_substr_indices(p)))")
+                agg.fail(opname, symptom, mattrs, f"{what} [second call on the same objects after {line}; before the edit: target {''.join(tcols)} bonds {ted}, pattern {''.join(pcols)} bonds {ped}, {len(stale) if stale is not None else '?'} embeddings; all bonds {bt}]", case, "\n".join(rep))
+
+            _compare_match(ctx, viol, tgt, pat, api, opname, tn2, tadj, tcols2, pn2, padj, pcols2, expected)
+            ctx.nontrivial(("mh", edit, api, tn, pn, len(expected)))
+
+
+def run_match_history_part(ctx, agg, part):
+    for tg in part["targets"]:
+        for pg in part["patterns"]:
+            for edit in MATCH_EDITS:
+                for k in part["ks"]:
+                    match_history_case(ctx, agg, tg, pg, part["bt"], edit, k, ("match", "get_substr_indices", "ens.get_substr_indices"))
+
+
 def seed_rep(g, seed):
     n, mask, cols = g
     e2, c2 = relabel(n, edges_of(n, mask), cols, perm_for_seed(n, seed))
@@ -593,6 +777,8 @@ def run(ctx):
         "Connectivity/Structure/Molecule/ConformerEnsemble), every start atom, every neighbour as direction, every bond, every atom; "
         "a graph is non-trivial when it has at least one bond. part M: (target, pattern) pairs through match / get_substr_indices; a "
         "target is non-trivial when for some pattern the induced embeddings are neither none nor all injective maps. "
+        "part H (history): on the SAME object, all queries, then one in-place edit (bond added / deleted, atom deleted; for matching: target bond toggled, "
+        "target or pattern element changed in place, target atom deleted), then all queries again, compared with the graph read back from the object. "
         "The seed only picks bond-list order/orientation/bond types and the representative of an isomorphism class."
     )
     ctx.assumptions += [
@@ -605,6 +791,7 @@ def run(ctx):
         "matching: Unknown appears only in patterns (the text does not say what an Unknown target atom matches); one bond type on all bonds of "
         "both sides (Single everywhere; Double and Aromatic on the class representatives), since the text does not speak about bond-type compatibility",
         "the reference adjacency is read from the object's own bond list by atom identity and must equal the graph that was requested (else harness error)",
+        "history: the reference is the graph (atoms, bond list, elements) read back from the object after the edit; an edit that raises is counted in the notes and the sequence dropped",
     ]
 
     # ---- part G --------------------------------------------------------------------------------
@@ -685,7 +872,32 @@ def run(ctx):
     ctx.bound["M_blocks_calls"] = sizes
     ctx.bound["M_pattern_atoms_max"] = pmax
     run_forked(ctx, agg, [(f"matching part {i}", run_match_part, p) for i, p in enumerate(parts)], nproc, 800)
-    agg.emit(ctx, consequential=CONSEQUENTIAL)
+
+    # ---- part H : history dimension -------------------------------------------------------------
+    hn = 5 if thorough else 4
+    hparts = []
+    for n in range(1, hn + 1):
+        total = 1 << len(pairs(n))
+        step = max(1, total // (64 if n == 5 else (8 if n == 4 else 1)))
+        hparts += [{"n": n, "lo": lo, "hi": min(total, lo + step)} for lo in range(0, total, step)]
+    hP = cat(P_can, range(1, 4))
+    ks = (seed % 3,)
+    if thorough:
+        hT = cat(T_can, range(1, 5))
+        mh = [{"targets": hT[i::16], "patterns": hP, "bt": "Single", "ks": ks} for i in range(16)]
+        mh += [{"targets": T_can[5][i::16], "patterns": cat(P_can, range(1, 3)), "bt": "Single", "ks": ks} for i in range(16)]
+    else:
+        mh = [{"targets": cat(T_can, range(1, 4))[i::4], "patterns": hP, "bt": "Single", "ks": ks} for i in range(4)]
+        mh += [{"targets": T_can[4][i::4], "patterns": cat(P_can, range(1, 3)), "bt": "Single", "ks": ks} for i in range(4)]
+    mh.append({"targets": cat(T_can, range(1, 4)), "patterns": cat(P_can, range(1, 3)), "bt": "Aromatic", "ks": ks})
+    if not only or only.startswith("H"):
+        run_forked(ctx, agg, [(f"graph history n={p['n']} [{p['lo']},{p['hi']})", run_graph_history_part, p) for p in hparts], nproc, 800)
+        run_forked(ctx, agg, [(f"matching history part {i}", run_match_history_part, p) for i, p in enumerate(mh)], nproc, 800)
+    ctx.bound["H_graph_atoms_max"] = hn
+    ctx.bound["H_graph_edits"] = "every single bond toggled (append_bond / del_bond), every atom deleted; on Connectivity, Molecule, ConformerEnsemble"
+    ctx.bound["H_match_edits"] = list(MATCH_EDITS)
+    conseq = list(CONSEQUENTIAL) + [(f"{d}:history[{e}]", f"{u}:history[{e}]") for d, u in CONSEQUENTIAL for e in MATCH_EDITS]
+    agg.emit(ctx, consequential=conseq)
 
     # ---- a few cases written out (run in this process, deterministic) -----------------------------
     sc = ctx.sub(10_000)
@@ -702,7 +914,13 @@ def run(ctx):
 
 def replay(ctx, case):
     agg = Agg()
-    if case["kind"] == "graph":
+    if case["kind"] == "graph-history":
+        graph_history_case(ctx, agg, case["cls"], case["n"], case["mask"], tuple(case["edit"]), case["seed"])
+    elif case["kind"] == "match-history":
+        tn, tm, tc = case["target"]
+        pn, pm, pc = case["pattern"]
+        match_history_case(ctx, agg, (tn, tm, tuple(tc)), (pn, pm, tuple(pc)), case["bt"], case["edit"], case["k"], (case["api"],))
+    elif case["kind"] == "graph":
         check_graph(ctx, agg, case["cls"], case["n"], [tuple(x) for x in case["bond_list"]], case["btypes"], tuple(case["forms"]))
     else:
         tn, tm, tc = case["target"]
